@@ -355,6 +355,16 @@ def run_case(case, ctx):
             r = check_bracket(ctx, A, B, truth2, res, {"order": oname, "answers": "free-running RNG"})
             if r:
                 results.add(r)
+        if oname == "default":
+            # the same graphs with every edge stored BELOW the diagonal (first argument) / symmetrically (second)
+            with _seam.installed():
+                from mc.choices import Chooser as _Ch
+
+                _seam.cache = {}
+                _seam.start_run(_Ch(()))
+                ctx.trans()
+                res_t = gromov_hausdorff(NA.T.copy(), np.maximum(NB, NB.T), **kw)
+                check_bracket(ctx, A, B, truth2, res_t, {"order": oname, "answers": "default", "orientation": "first lower-triangular, second symmetric"})
         ctx.outcome((oname, sorted(results)))
         if any(lb < ub for lb, ub in results):
             ctx.nontriv("bracket_not_tight")
